@@ -41,6 +41,16 @@ m("min-create-first", "_snapshot/min_max_value.py", "            if not self.cmp
 m("collection-dedupe-type", "_snapshot/collection_value.py", "            if item not in self._new_value:", "            if repr(item) not in map(repr, self._new_value) and len(self._new_value) < 3:", ["C01", "C05"], "`in` list drops the 4th member")
 
 
+# ---- C02
+m("return-old-under-fix", "_snapshot/generic_value.py", "        if flags.fix or flags.create or flags.update or self._old_value is undefined:", "        if self._old_value is undefined:", ["C02", "C07"], "comparison answers the old result under create/fix: test aborts at first failing snapshot (asserting style)")
+m("addx-off", "_align.py", '            result += "x" * g[1]\n            i += 1', '            result += g[0] * g[1]', ["C11"], "never produce x (replace) - only affects which text survives")
+m("dict-insert-pos", "_adapter/dict_adapter.py", "                insert_pos += 1", "                insert_pos += 2", ["C02", "C18"], "off-by-one insert position for dict entries")
+m("tuple1-comma", "_change.py", '        if elements == 1 and isinstance(parent, ast.Tuple):', '        if False:', ["C02"], "1-tuple loses its trailing comma after deletion")
+m("delete-wrong-kw", "_adapter/generic_call_adapter.py", "                    kw.value,\n                    self.argument(old_value, kw.arg),", "                    old_node.keywords[0].value,\n                    self.argument(old_value, kw.arg),", ["C02"], "Delete of the wrong keyword")
+m("parens-limit", "_change.py", "            and prev_token.index > left_brace.index\n            and next_token.index < right_brace.index", "", ["C02", "C18"], "paren extension may swallow the call's own parentheses f((x))")
+m("eq-merge-keeps-old-leaf", "_adapter/value_adapter.py", "        yield Replace(\n            node=old_node,", "        if isinstance(new_value, bool): return new_value\n        yield Replace(\n            node=old_node,", ["C02"], "bool leaves are never rewritten")
+
+
 def make_copy(mut):
     base = os.environ.get("VERIF_TMP") or ("/dev/shm" if os.path.isdir("/dev/shm") else tempfile.gettempdir())
     d = Path(tempfile.mkdtemp(prefix="mutant-", dir=base))
